@@ -2,9 +2,12 @@
 import lib
 
 ID = 'C18'
-GEN_FILES = ['K_game']
+GEN_FILES = ['K_game',
+             # source pins of the hand-modelled modules (gen/kernels_pins.py)
+             'T_pins_game', 'T_pins_util']
 COQ_PROPERTY = 'theories/Properties/C18.vo'
-COQ_EXTRA = ['theories/Generated/K_game_selftest.vo']
+COQ_EXTRA = ['theories/Generated/K_game_selftest.vo',
+             'theories/Proofs/GamePins.vo', 'theories/Proofs/UtilPins.vo']
 MODEL = ('ExC18', 'c18_main.ml')
 MONITOR = ('MonC18', 'c18_mon_main.ml')
 BOUNDS = [0x0, 0x2000, 0x3000, 0x3100, 0x3200, 0x4300]
